@@ -1,13 +1,13 @@
 SPECIFICATION Spec
 CONSTANTS
  NK = 3
- MaxFaults = 2
- MaxLead = 1
+ MaxFaults = 1
+ MaxLead = 0
  MaxAttempts = 2
  MaxRetries = 2
- MaxPasses = 0
+ MaxPasses = 2
  CheckTs = {25, 40}
- Concurrent = FALSE
+ Concurrent = TRUE
  Dev = {}
  Orders = "all"
  PlanMax = 0
